@@ -113,25 +113,35 @@ pub fn profile(prop: &str) -> Profile {
         "C02" => {
             let mut p = Profile::base(boost(uniform(&[Serde]), &[Drain, Consume, SDrain, SConsume, Entry, Insert, SInsert, Relocate], 30));
             p.forget = true;
+            p.src_tricks = true;
+            p.bad_hints = true;
             p
         }
         "C03" => {
-            let mut p = Profile::base(boost(boost(uniform(&[Serde, Fmt, FmtIter, WithCap]), &[Fill, Overflow], 60), &[Insert, InsertKv, Checked, Entry, SInsert, FromIter, SFromIter, SExtend, Remove, Retain, Drain, Clone], 25));
+            let mut p = Profile::base(boost(boost(uniform(&[Serde, Fmt, FmtIter, WithCap]), &[Fill, Overflow], 60), &[Insert, InsertKv, Checked, Entry, SInsert, FromIter, SFromIter, SExtend, SExtendRef, Remove, Retain, Drain, Clone], 25));
             p.max_ops = 16;
+            p.src_tricks = true;
+            p.bad_hints = true;
             p
         }
         "C04" => {
-            let mut p = Profile::base(boost(uniform(&[Serde, WithCap, Relocate]), &[Clone, SClone, Retain, SRetain, Clear, SClear, Drain, Consume, FromIter, SFromIter, SExtend, SSub, DropNew, Entry], 25));
+            let mut p = Profile::base(boost(uniform(&[WithCap, Relocate]), &[Clone, SClone, Retain, SRetain, Clear, SClear, Drain, Consume, FromIter, SFromIter, SExtend, SSub, DropNew, Entry], 25));
             p.max_ops = 12;
             p.src_tricks = true;
             p.bad_hints = true;
             p
         }
-        "C05" => Profile::base(boost(uniform(&[Serde]), &[Overflow, Fill, WithCap, Disjoint, Lookup, Mutate, Remove, Retain, Entry, SInsert, SRemove], 25)),
+        "C05" => {
+            let mut p = Profile::base(boost(uniform(&[Serde]), &[Overflow, Fill, WithCap, Disjoint, Lookup, Mutate, Remove, Retain, Entry, SInsert, SRemove], 25));
+            p.src_tricks = true;
+            p.bad_hints = true;
+            p
+        }
         "C06" => {
-            let mut p = Profile::base(boost(uniform(&[Serde]), &[Relocate, Fmt, FmtIter, SAlg, Clone, Disjoint, Entry], 25));
+            let mut p = Profile::base(boost(uniform(&[Serde]), &[Relocate, Fmt, FmtIter, SAlg, SDiffRef, Clone, Disjoint, DisjointUnchecked, Entry], 25));
             p.no_heap_shapes = true;
             p.alloc_window = true;
+            p.weights.push((BigDisjoint, 6));
             p
         }
         "C10" => {
@@ -140,13 +150,13 @@ pub fn profile(prop: &str) -> Profile {
             p
         }
         "C16" => {
-            let mut p = Profile::base(boost(uniform(&[Serde, Fmt, FmtIter, Overflow, WithCap]), &[FromIter, FromArr, SFromIter, SFromArr, SExtend], 80));
+            let mut p = Profile::base(boost(uniform(&[Serde, Fmt, FmtIter, Overflow, WithCap]), &[FromIter, FromArr, SFromIter, SFromArr, SExtend, SExtendRef], 80));
             p.max_ops = 10;
             p.src_tricks = true;
             p
         }
         "C17" => {
-            let mut p = Profile::base(boost(uniform(&[Serde, Unchecked, Fmt, FmtIter, WithCap]), &[Disjoint, Entry, SInsert, Retain, SRel, Eq, SEq, Remove, Insert, InsertKv, Checked], 25));
+            let mut p = Profile::base(boost(uniform(&[Serde, Unchecked, DisjointUnchecked, Fmt, FmtIter, WithCap]), &[Disjoint, Entry, SInsert, Retain, SRel, Eq, SEq, Remove, Insert, InsertKv, Checked], 25));
             p.lies = true;
             p.forget = true;
             p.src_tricks = true;
@@ -154,7 +164,8 @@ pub fn profile(prop: &str) -> Profile {
             p
         }
         "C19" => {
-            let mut p = Profile::base(boost(uniform(&[Serde, Overflow, WithCap]), &[Fmt, FmtIter, SAlg], 80));
+            let mut p = Profile::base(boost(uniform(&[Serde, Overflow, WithCap]), &[Fmt, FmtIter, SAlg, SDiffRef], 80));
+            let _ = DefaultIter;
             p.max_ops = 12;
             p.sink_faults = true;
             p
